@@ -326,9 +326,24 @@ type report struct {
 	Outcomes     int         `json:"distinct_outcomes"`
 	Schedules    int         `json:"distinct_schedules"`
 	Exhaustive   bool        `json:"exhaustive_within_bound"`
+	All          bool        `json:"all_interleavings"`
+	MaxBound     int         `json:"requested_bound"`
+	Passes       []pass      `json:"passes"`
+	HBStates     int         `json:"distinct_happens_before_states"`
+	Pruned       int64       `json:"subtrees_pruned_as_already_visited"`
 	Violations   []violation `json:"violations"`
 	Sample       string      `json:"sample_schedule"`
 	WallS        float64     `json:"wall_s"`
+}
+
+// pass is one exploration with a fixed preemption bound.
+type pass struct {
+	Bound      int   `json:"preemption_bound"`
+	Executions int64 `json:"executions"`
+	HBStates   int   `json:"distinct_happens_before_states"`
+	Pruned     int64 `json:"subtrees_pruned_as_already_visited"`
+	BoundCuts  int64 `json:"alternatives_not_taken_because_of_the_bound"`
+	Complete   bool  `json:"complete"`
 }
 
 func switches(sig string) int64 {
@@ -341,9 +356,18 @@ func switches(sig string) int64 {
 	return n
 }
 
-func explore(sc *scenario, bound int, budget time.Duration) report {
+// explore runs iterative context bounding: all schedules with at most minBound
+// preemptions (the guaranteed part: it only stops at a hard deadline of 20x the
+// budget), then minBound+1, +2, ... while the budget lasts. A pass in which the
+// bound never stopped an alternative from being taken has covered ALL
+// interleavings and ends the iteration. When a pass finds a violation the
+// bounds below it are searched, smallest first, so that the counterexample
+// reported has the fewest preemptions. Bound in the report is the highest
+// bound whose pass completed (-1 if none did).
+func explore(sc *scenario, minBound int, budget time.Duration) report {
 	start := time.Now()
-	rep := report{Scenario: sc.name, Threads: len(sc.threads), Bound: bound, Exhaustive: true}
+	soft := budget
+	rep := report{Scenario: sc.name, Threads: len(sc.threads), Bound: -1, MaxBound: minBound}
 	// sequential reference: each thread function executed alone, fresh state each
 	want := make([]string, len(sc.threads))
 	for i := range sc.threads {
@@ -373,15 +397,24 @@ func explore(sc *scenario, bound int, budget time.Duration) report {
 		}
 		return "", ""
 	}
+	// visited: happens-before state -> fewest preemptions it was expanded with.
+	// A state reached again with at least as many preemptions used has had every
+	// continuation within the bound explored already (depth-first order), so the
+	// search does not branch there again. VERIF_C11_NOPRUNE=1 turns this off.
+	prune := os.Getenv("VERIF_C11_NOPRUNE") == ""
+	var visited map[[2]uint64]int16
+	var bound int
+	var cur *pass
 	var rec func(prefix []int)
 	rec = func(prefix []int) {
 		if len(rep.Violations) >= 5 {
 			return
 		}
 		if time.Since(start) > budget {
-			rep.Exhaustive = false
+			cur.Complete = false
 			return
 		}
+		cur.Executions++
 		res, results := runOnce(prefix)
 		rep.Executions++
 		rep.States += int64(len(res.Points))
@@ -415,12 +448,24 @@ func explore(sc *scenario, bound int, budget time.Duration) report {
 		}
 		for i := len(prefix); i < len(res.Points); i++ {
 			p := res.Points[i]
+			if prune {
+				c, ok := visited[p.Key]
+				if ok && int(c) <= p.Preemptions {
+					rep.Pruned++
+					cur.Pruned++
+					break
+				}
+				if ok || len(visited) < 4000000 {
+					visited[p.Key] = int16(p.Preemptions)
+				}
+			}
 			for alt := 1; alt < len(p.Enabled); alt++ {
 				cost := p.Preemptions
 				if p.RunningStillEnabled {
 					cost++
 				}
-				if bound >= 0 && cost > bound {
+				if cost > bound {
+					cur.BoundCuts++
 					continue
 				}
 				np := make([]int, i+1)
@@ -432,7 +477,47 @@ func explore(sc *scenario, bound int, budget time.Duration) report {
 			}
 		}
 	}
-	rec(nil)
+	for bound = minBound; ; bound++ {
+		budget = soft
+		if bound <= minBound {
+			budget = 20 * soft
+		}
+		if time.Since(start) > budget {
+			break
+		}
+		visited = map[[2]uint64]int16{}
+		rep.Passes = append(rep.Passes, pass{Bound: bound, Complete: true})
+		cur = &rep.Passes[len(rep.Passes)-1]
+		rec(nil)
+		cur.HBStates = len(visited)
+		rep.HBStates = len(visited)
+		if len(rep.Violations) > 0 {
+			found := rep.Violations
+			for b := 0; b < bound; b++ {
+				bound, visited, rep.Violations = b, map[[2]uint64]int16{}, nil
+				seenViolation = map[string]bool{}
+				rep.Passes = append(rep.Passes, pass{Bound: b, Complete: true})
+				cur = &rep.Passes[len(rep.Passes)-1]
+				rec(nil)
+				if len(rep.Violations) > 0 {
+					break
+				}
+			}
+			if len(rep.Violations) == 0 {
+				rep.Violations = found
+			}
+			break
+		}
+		if !cur.Complete {
+			break
+		}
+		rep.Bound = bound
+		if cur.BoundCuts == 0 {
+			rep.All = true
+			break
+		}
+	}
+	rep.Exhaustive = rep.All || rep.Bound >= minBound
 	rep.Outcomes = len(outcomes)
 	rep.Schedules = len(sigs)
 	rep.WallS = time.Since(start).Seconds()
